@@ -356,7 +356,7 @@ class Check:
                 suspects.update(i for i in range(len(suite.ops)) if impl[i] != model[i])
             sessions = sorted({suite.session_of(i) for i in suspects})
             rec["retried_sessions"] = len(sessions)
-            for (s0, e0) in sessions[:8]:
+            for (s0, e0) in sessions[:3]:
                 sub, st2 = self._exec(HARNESS_BIN, suite.domain, list(suite.args) + list(suite.retry_args), suite.ops[s0:e0] + ["bye"], timeout)
                 if len(sub) >= e0 - s0:
                     impl[s0:e0] = sub[:e0 - s0]
